@@ -123,7 +123,7 @@ def check_backpressure(run, stage, n_workers):
     except Exception as e:
         run.ob(name, "inconclusive", "E3:extraction", "put() uses a time-out (reaction to queue.Full: %s) but the stage cannot be run with %d items (queue of %d): not decided (%s)" % (full, n_items, maxsize, e))
         return
-    table = C03.worker_table(stage)
+    table = C03.worker_table(stage, ([op for op in script if op[0] == 'put'] or [(0, 0, None)])[0][2])
     detects, _r = stage_detects(stage, small, n_workers)
     ts = mpmodel.stage_ts(script, table, n_workers, fault=True, detects=detects, full=full)
     ts.param_constraints.append(z3.ULT(ts.fault_item, 2))
